@@ -621,8 +621,8 @@ def oracle(case, res):
     """-> list of failures (site, what, observed, expected).  Only what C06 states: a supplied option reaches every call
     of the stage it configures, in every process, and is never replaced by something else."""
     fails = []
-    if res['status'] != 'ok':
-        return fails
+    if res['status'] != 'ok' and not res['status'].startswith('raised EMDSiftCovergeError'):
+        return fails      # (a sift that gives up on convergence has still made stage calls: they are judged)
     by_stage = {}
     for code, kw, inp, inw in res['records']:
         by_stage.setdefault('GEEEPPP'[code - 1] if 1 <= code <= 7 else '?', []).append((code, dict(kw[1]), inp, inw))
@@ -965,7 +965,12 @@ def run(ctx):
         fails = oracle(c, r)
         for site, what, obs, exp in fails:
             viol.setdefault(site, []).append((c, what, obs, exp))
-        if r['status'] != 'ok':
+        if r['status'].startswith('raised EMDSiftCovergeError'):
+            # a legitimate outcome of sifting noisy data (the ensembles draw fresh noise): the calls made so far were judged by
+            # the oracle above, the set of records may be incomplete and is not compared with the model
+            ctx.discarded += 1
+            ctx.notes.append('no convergence (records judged by the oracle only): %s' % (key,))
+        elif r['status'] != 'ok':
             if not fails:
                 breaks.append((c, 'the call raised where the model makes stage calls: ' + r['status'], r['status'], None, None))
         elif got == want:
